@@ -41,10 +41,25 @@ const knownAssign = "Dev_AssignUnsorted"
 
 type conf struct {
 	W, NSplits, NRecs, B, KeyGroups int
+	G                               int     // > 0: keys are placed by key group (rescale at recovery), owners follow from partitioning.KeySpace
 	keyOf                           [][]int // [s-1][i-1] -> model key (1-based)
-	owner                           []int   // [k-1] -> operator (1-based)
+	owner                           []int   // [k-1] -> operator (1-based) when there are W workers (G = 0)
+	group                           []int   // [k-1] -> key group (1-based) (G > 0)
 	keyName                         []string
 	splits                          [][]cluster.Record
+	counts                          []int      // trace mode: worker counts a generation may have (empty: always W)
+	overlap                         bool       // trace mode: job snapshot writes are held and land in seeded order; checkpoints are started meanwhile
+	mem                             []int      // dkv memtable sizes to run with, one per behaviour / generation in turn (0 = the repo's default); empty: no tuning
+	lvl, amp                        int        // dkv.smallestLevelSize / dkv.maxSizeAmpPct under tuning (0 = default)
+	swapDelayUs                     int        // every third tuned generation: flush / compaction swaps are delayed by up to this many microseconds
+}
+
+// nk is the number of model keys.
+func (c *conf) nk() int {
+	if c.G > 0 {
+		return len(c.group)
+	}
+	return len(c.owner)
 }
 
 func digits(code, n int) []int {
@@ -68,8 +83,20 @@ func ndigits(x int) int {
 func readConf(in *mbt.Input) (*conf, error) {
 	c := &conf{W: in.CfgInt("W", 2), NSplits: in.CfgInt("NSplits", 2), NRecs: in.CfgInt("NRecs", 2), B: in.CfgInt("B", 1)}
 	c.KeyGroups = in.CfgInt("KeyGroups", 2*c.W)
-	od := in.CfgInt("OwnerDigits", 12)
-	c.owner = digits(od, ndigits(od))
+	c.G = in.CfgInt("G", 0)
+	c.counts = in.Ints("Counts")
+	c.overlap = in.CfgBool("Overlap", false)
+	c.mem = in.Ints("MemSizes")
+	c.lvl, c.amp = in.CfgInt("SmallestLevel", 0), in.CfgInt("MaxSizeAmpPct", 0)
+	c.swapDelayUs = in.CfgInt("SwapDelayUs", 0)
+	if c.G > 0 {
+		gd := in.CfgInt("GroupDigits", 0)
+		c.group = digits(gd, ndigits(gd))
+		c.KeyGroups = c.G
+	} else {
+		od := in.CfgInt("OwnerDigits", 12)
+		c.owner = digits(od, ndigits(od))
+	}
 	kd := in.CfgInt("KeyDigits", 0)
 	c.keyOf = make([][]int, c.NSplits)
 	var flat []int
@@ -81,11 +108,18 @@ func readConf(in *mbt.Input) (*conf, error) {
 			if kd != 0 {
 				c.keyOf[s] = append(c.keyOf[s], flat[s*c.NRecs+i])
 			} else { // formula mode (must match Recovery.tla KeyOf)
-				c.keyOf[s] = append(c.keyOf[s], ((s+1)*7+(i+1)*3)%len(c.owner)+1)
+				c.keyOf[s] = append(c.keyOf[s], ((s+1)*7+(i+1)*3)%c.nk()+1)
 			}
 		}
 	}
 	seen := map[int]int{}
+	for _, g := range c.group {
+		if g < 1 || g > c.G {
+			return nil, fmt.Errorf("key group %d out of range", g)
+		}
+		c.keyName = append(c.keyName, cluster.KeyInGroup(c.G, g-1, seen[g]))
+		seen[g]++
+	}
 	for _, o := range c.owner {
 		if o < 1 || o > c.W {
 			return nil, fmt.Errorf("owner %d out of range", o)
@@ -97,7 +131,7 @@ func readConf(in *mbt.Input) (*conf, error) {
 		var recs []cluster.Record
 		for i := 0; i < c.NRecs; i++ {
 			k := c.keyOf[s][i]
-			if k < 1 || k > len(c.owner) {
+			if k < 1 || k > c.nk() {
 				return nil, fmt.Errorf("key %d out of range", k)
 			}
 			recs = append(recs, cluster.Record{Split: s, Idx: i + 1, Key: c.keyName[k-1]})
@@ -107,13 +141,98 @@ func readConf(in *mbt.Input) (*conf, error) {
 	return c, nil
 }
 
-func (c *conf) ownerOfKeyName(k string) int { // 0-based operator, -1 unknown
-	for i, n := range c.keyName {
+func (c *conf) ownerOfKeyName(k string) int { // 0-based operator among W, -1 unknown
+	for _, n := range c.keyName {
 		if n == k {
-			return c.owner[i] - 1
+			return cluster.OwnerOf(c.KeyGroups, c.W, k)
 		}
 	}
 	return -1
+}
+
+// ------------------------------------------------- dkv under the operators ----
+
+// tuneFor installs the DKV tuning for the generation that is booted next: turn-th entry of MemSizes.
+// It returns the memtable size chosen (0 = the repo's default sizes).
+func (c *conf) tuneFor(turn int) int {
+	if len(c.mem) == 0 {
+		return 0
+	}
+	m := c.mem[turn%len(c.mem)]
+	t := cluster.DkvTune{MemTable: int64(m)}
+	if m != 0 {
+		t.SmallestLevel, t.MaxSizeAmpPct = int64(c.lvl), int64(c.amp)
+		if c.amp == 0 && turn%3 == 1 {
+			t.MaxSizeAmpPct = cluster.NeverMajor // only minor compactions (L0+L1 -> L1, cascading)
+		}
+		if turn%3 == 0 {
+			t.SwapDelay = time.Duration(c.swapDelayUs) * time.Microsecond // slow background tasks: DKV checkpoints race with flushes in flight
+		}
+	}
+	cluster.InstallDkvTune(t)
+	return m
+}
+
+// untune: databases opened from now on (read-back copies of checkpoints) use the repo's defaults.
+func (c *conf) untune() {
+	if len(c.mem) != 0 {
+		cluster.InstallDkvTune(cluster.DkvTune{})
+	}
+}
+
+// countShapes accounts what the operators deployed since log index mark were restored from.
+func countShapes(c *cluster.Cluster, mark int, res *mbt.Result) {
+	for _, o := range c.Log(mark) {
+		if o.Kind != "op.deployed" || len(o.OpCkpts) == 0 {
+			continue
+		}
+		res.Count("restoredOps", 1)
+		if len(o.OpCkpts) > 1 {
+			res.Count("restoredFromSeveral", 1)
+		}
+		var sum cluster.CkptShape
+		for _, oc := range o.OpCkpts {
+			if sh, err := cluster.CheckpointShape(oc); err == nil {
+				sum.L0Tables += sh.L0Tables
+				sum.DeepTables += sh.DeepTables
+				sum.WALBytes += sh.WALBytes
+			}
+		}
+		if sum.L0Tables+sum.DeepTables > 0 {
+			res.Count("restoredWithTables", 1)
+		}
+		if sum.DeepTables > 0 {
+			res.Count("restoredWithCompactedTables", 1)
+		}
+		if sum.WALBytes > 0 {
+			res.Count("restoredWithWal", 1)
+		}
+		if sum.WALBytes > 0 && sum.L0Tables+sum.DeepTables > 0 {
+			res.Count("restoredWithTablesAndWal", 1)
+		}
+	}
+}
+
+// restoreFailure: the code under test failed (returned an error or panicked) while an operator of the
+// generation booted since log index mark was deployed, i.e. while it restored its DKV from the checkpoints the
+// job handed to it. The job then waits for ever (Boot times out); that is not a machinery problem but the
+// restart from the newest completed checkpoint failing.
+func restoreFailure(c *cluster.Cluster, mark int) string {
+	for _, o := range c.Log(mark) {
+		if o.Kind == "panic" && len(o.Node) > 2 && o.Node[:2] == "op" {
+			return fmt.Sprintf("%s panicked while restoring: %s", o.Node, o.Text)
+		}
+		if o.Kind == "op.deployed" && o.Text != "" {
+			return fmt.Sprintf("%s failed to restore: %s", o.Node, o.Text)
+		}
+	}
+	return ""
+}
+
+func countDkv(res *mbt.Result, before cluster.DkvStats) {
+	now := cluster.DkvCounters()
+	res.Count("flushes", int(now.Flushed-before.Flushed))
+	res.Count("compactions", int(now.Compactions-before.Compactions))
 }
 
 // ------------------------------------------------------------ replay ----
@@ -132,8 +251,12 @@ type run struct {
 	startArr map[int]*gate.Arrival
 	srAck    map[int]*gate.Arrival
 	opAck    map[int]*gate.Arrival
-	pubArr   *gate.Arrival
+	pubArr   map[int]*gate.Arrival   // checkpoint id -> its snapshot write, parked at the store gate
 	inside   map[int][]*cluster.Call // operator -> calls blocked inside it
+	w        int                     // worker count of the running generation
+	genW     map[int]int             // generation -> worker count
+	rng      *rand.Rand              // seeded per behaviour: when to let background flushes / compactions settle
+	turn     int                     // generations booted (selects the DKV tuning)
 	givens   int                     // handler invocations (events) expected so far
 	logFrom  int                     // log index from which arrivals/obs of the current step are searched
 	havePrev bool                    // the running job has a completed checkpoint in memory
@@ -151,7 +274,7 @@ func (r *run) reset() {
 	r.startArr = map[int]*gate.Arrival{}
 	r.srAck = map[int]*gate.Arrival{}
 	r.opAck = map[int]*gate.Arrival{}
-	r.pubArr = nil
+	r.pubArr = map[int]*gate.Arrival{}
 	r.inside = map[int][]*cluster.Call{}
 	r.dead = map[int]bool{}
 }
@@ -226,13 +349,53 @@ func (r *run) awaitGivens(n int) error {
 	return nil
 }
 
-func (r *run) awaitPub() error {
-	a, err := r.c.Sched().Await(gate.Point(cluster.PStoreWrite), wait)
+func (r *run) awaitPub(n int) error {
+	a, err := r.c.Sched().Await(func(g *gate.Arrival) bool { return g.Point == cluster.PStoreWrite && int(call(g).Ckpt) == n }, wait)
 	if err != nil {
-		return driftf("completed checkpoint was not handed to storage: %v", err)
+		return driftf("completed checkpoint %d was not handed to storage: %v", n, err)
 	}
-	r.pubArr = a
+	r.pubArr[n] = a
 	return nil
+}
+
+// boot starts the next generation with w workers under the DKV tuning whose turn it is.
+func (r *run) boot(w int, restart bool) (uint64, error) {
+	if err := r.c.SetWorkers(w); err != nil {
+		return 0, err
+	}
+	if m := r.cf.tuneFor(r.bi + r.turn); m != 0 {
+		r.res.Count("tunedGenerations", 1)
+	}
+	r.turn++
+	mark := len(r.c.Log(0))
+	var restored uint64
+	var err error
+	if restart {
+		restored, err = r.c.Restart()
+	} else {
+		restored, err = r.c.Boot()
+	}
+	r.cf.untune()
+	if err == nil {
+		r.w = w
+		r.genW[r.c.Gen()] = w
+		countShapes(r.c, mark, r.res)
+	} else if why := restoreFailure(r.c, mark); why != "" && restart {
+		r.violation("restart from the newest completed checkpoint failed: "+why, nil, nil, "")
+	}
+	return restored, err
+}
+
+// settle: with tuned memtables, let the flushes and compactions the writes so far started finish (seeded
+// coin): the DKV checkpoint taken next then consists of tables (+ the active memtable's WAL) instead of
+// racing with them.
+func (r *run) settle() {
+	if len(r.cf.mem) == 0 || r.rng.Intn(2) == 0 {
+		return
+	}
+	if cluster.DkvQuiet(2 * time.Second) {
+		r.res.Count("settled", 1)
+	}
 }
 
 func (r *run) exec(st mbt.Step) error {
@@ -250,8 +413,11 @@ func (r *run) exec(st mbt.Step) error {
 		}
 		return r.awaitArr(st)
 	case "Tick":
+		if len(st.List("inflight")) > 0 {
+			r.res.Count("ticksWhilePublishing", 1) // the previous checkpoint's snapshot write is still parked at the store gate
+		}
 		go r.c.TickCheckpoint()
-		for k := 0; k < r.cf.W; k++ {
+		for k := 0; k < r.w; k++ {
 			a, err := r.c.Sched().Await(gate.Point(cluster.PSrStartCkpt), wait)
 			if err != nil {
 				return driftf("Tick: StartCheckpoint calls missing: %v", err)
@@ -296,7 +462,7 @@ func (r *run) exec(st mbt.Step) error {
 			return err
 		}
 		if st.Bool("done") {
-			return r.awaitPub()
+			return r.awaitPub(st.Int("n"))
 		}
 	case "Deliver":
 		rr, oo := st.Int("r"), st.Int("o")
@@ -305,6 +471,9 @@ func (r *run) exec(st mbt.Step) error {
 			return driftf("Deliver: nothing at the gate %s->%s", sr(rr), op(oo))
 		}
 		delete(r.slotArr, [2]int{rr, oo})
+		if st.Str("res") == "snapshot" {
+			r.settle()
+		}
 		a.Release()
 		switch st.Str("res") {
 		case "parked":
@@ -375,14 +544,14 @@ func (r *run) exec(st mbt.Step) error {
 			}
 		}
 		if st.Bool("done") {
-			return r.awaitPub()
+			return r.awaitPub(st.Int("n"))
 		}
 	case "Publish":
-		if r.pubArr == nil {
-			return driftf("Publish: no snapshot write in flight")
+		a := r.pubArr[st.Int("n")]
+		if a == nil {
+			return driftf("Publish: no snapshot write of checkpoint %d in flight", st.Int("n"))
 		}
-		a := r.pubArr
-		r.pubArr = nil
+		delete(r.pubArr, st.Int("n"))
 		from := len(r.c.Log(0))
 		a.Release()
 		if err := waitDone(call(a), "Publish"); err != nil {
@@ -392,7 +561,12 @@ func (r *run) exec(st mbt.Step) error {
 			return driftf("Publish: write failed: %v", call(a).Err)
 		}
 		_ = from
-		r.c.WaitRetention(500 * time.Millisecond) // the retention round must land before anything else happens (DESIGN 7 #28)
+		if st.Bool("sup") {
+			// a write that lands after a newer one: the job removes the file again, nothing refers to it
+			r.res.Count("supersededWrites", 1)
+			break
+		}
+		r.c.WaitRetention(500 * time.Millisecond) // the retention round lands before the next step (its interleavings with DKV checkpoints are C09's)
 		r.havePrev = true
 		r.checkPublished(st)
 	case "Kill":
@@ -405,11 +579,20 @@ func (r *run) exec(st mbt.Step) error {
 				nodes = append(nodes, fmt.Sprintf("w%d", n-1))
 			}
 		}
+		if len(r.pubArr) > 0 {
+			r.res.Count("killsWhilePublishing", 1)
+		}
 		r.c.Kill(nodes...)
 		r.res.Count("kills", 1)
 	case "Restart":
-		restored, err := r.c.Restart()
+		if st.Int("w") != r.w {
+			r.res.Count(fmt.Sprintf("rescale%dto%d", r.w, st.Int("w")), 1)
+		}
+		restored, err := r.boot(st.Int("w"), true)
 		if err != nil {
+			if r.violated {
+				return err
+			}
 			if errors.Is(err, cluster.ErrBootTimeout) {
 				return err // machinery
 			}
@@ -435,12 +618,17 @@ func (r *run) exec(st mbt.Step) error {
 // the operators' DKV checkpoints: it must be the failure-free state at its
 // own cursors (a kill right after this point restarts from it).
 func (r *run) checkPublished(st mbt.Step) {
-	pubs := r.c.Published()
-	if len(pubs) == 0 {
+	var p *cluster.Obs
+	for _, o := range r.c.Published() {
+		if o.Gen == r.c.Gen() && (st == nil || int(o.Ckpt) == st.Int("n")) {
+			o := o
+			p = &o
+		}
+	}
+	if p == nil {
 		r.res.Errors = append(r.res.Errors, "Publish: no published observation")
 		return
 	}
-	p := pubs[len(pubs)-1]
 	ck, err := cluster.ReadJobCheckpointFile(p.Text)
 	if err != nil {
 		r.res.Errors = append(r.res.Errors, "reading published checkpoint: "+err.Error())
@@ -479,7 +667,8 @@ func (r *run) judgeCheckpoint(id uint64, read func() (*cluster.CheckpointState, 
 		return
 	}
 	for k, where := range cs.Where {
-		if len(where) != 1 || cluster.OpIndexOfID(cs.Ops[where[0]].Op) != cluster.OwnerOf(r.cf.KeyGroups, r.cf.W, k) {
+		// len(cs.Ops) = the worker count of the generation that took the checkpoint
+		if len(where) != 1 || cluster.OpIndexOfID(cs.Ops[where[0]].Op) != cluster.OwnerOf(r.cf.KeyGroups, len(cs.Ops), k) {
 			r.violation(fmt.Sprintf("state of key %s is not held (only) by its owner in checkpoint %d", k, id), nil, where, "")
 		}
 	}
@@ -530,7 +719,10 @@ func (r *run) knownFor(keys []string) string {
 func (r *run) finish() {
 	anyDead := len(r.dead) > 0
 	if anyDead {
-		if _, err := r.c.Restart(); err != nil {
+		if _, err := r.boot(r.w, true); err != nil {
+			if r.violated {
+				return
+			}
 			if errors.Is(err, cluster.ErrBootTimeout) {
 				r.res.Errors = append(r.res.Errors, err.Error())
 				return
@@ -601,7 +793,19 @@ func (r *run) finish() {
 // judgeGivens: every handler invocation of the whole execution (all
 // generations) must have been given the failure-free state of its key.
 func (r *run) judgeGivens() {
-	for _, g := range r.c.Givens(0) {
+	for _, o := range r.c.Log(0) {
+		if o.Kind != "given" {
+			continue
+		}
+		r.judgeGiven(o.Givens, r.genW[o.Gen])
+		if r.violated {
+			return
+		}
+	}
+}
+
+func (r *run) judgeGiven(givens []cluster.Given, w int) {
+	for _, g := range givens {
 		want := cluster.PrevSameKey(r.cf.splits, g.Rec)
 		if g.SeenCnt != 0 || g.SeenLast != want {
 			r.violation(fmt.Sprintf("handler of %s was given cnt=%d last=%d for record %s of key %s (failure-free run: cnt absent, last=%d)",
@@ -609,8 +813,8 @@ func (r *run) judgeGivens() {
 				map[string]int{"cnt": 0, "last": want}, map[string]int{"cnt": g.SeenCnt, "last": g.SeenLast}, r.knownFor([]string{g.Rec.Key}))
 			return
 		}
-		if cluster.OwnerOf(r.cf.KeyGroups, r.cf.W, g.Rec.Key) != opIdx(g.Op) {
-			r.violation(fmt.Sprintf("record %s of key %s was processed by %s, not by the key's owner", g.Rec.ID(), g.Rec.Key, g.Op), nil, nil, "")
+		if cluster.OwnerOf(r.cf.KeyGroups, w, g.Rec.Key) != opIdx(g.Op) {
+			r.violation(fmt.Sprintf("record %s of key %s was processed by %s, not by the key's owner among %d workers", g.Rec.ID(), g.Rec.Key, g.Op, w), nil, nil, "")
 			return
 		}
 	}
@@ -622,9 +826,15 @@ func opIdx(label string) int {
 	return i
 }
 
-func replay(bi int, beh []mbt.Step, cf *conf, res *mbt.Result) {
+func replay(bi int, beh []mbt.Step, cf *conf, res *mbt.Result, seed int64) {
+	w0 := cf.W
+	if len(beh) > 0 && beh[0].Has("w") && beh[0].Str("a") != "Restart" {
+		w0 = beh[0].Int("w") // the first generation's worker count (rescale configs start with any allowed count)
+	}
+	dkv0 := cluster.DkvCounters()
+	defer func() { countDkv(res, dkv0) }()
 	c, err := cluster.New(cluster.Options{
-		Workers: cf.W, KeyGroups: cf.KeyGroups, Splits: cf.splits, OpBatch: cf.B,
+		Workers: w0, KeyGroups: cf.KeyGroups, Splits: cf.splits, OpBatch: cf.B,
 		Gates:    []string{cluster.POpEvent, cluster.PSrStartCkpt, cluster.PJobSrAck, cluster.PJobOpAck, cluster.PStoreWrite},
 		LogCalls: os.Getenv("RECOVERY_DUMP_DIR") != "",
 	})
@@ -639,9 +849,9 @@ func replay(bi int, beh []mbt.Step, cf *conf, res *mbt.Result) {
 			os.WriteFile(fmt.Sprintf("%s/beh-%03d.json", d, bi), b, 0o644)
 		}()
 	}
-	r := &run{cf: cf, c: c, bi: bi, res: res, lostOps: map[int]bool{}}
+	r := &run{cf: cf, c: c, bi: bi, res: res, lostOps: map[int]bool{}, genW: map[int]int{}, rng: rand.New(rand.NewSource(seed*7919 + int64(bi)))}
 	r.reset()
-	if _, err := c.Boot(); err != nil {
+	if _, err := r.boot(w0, false); err != nil {
 		res.Errors = append(res.Errors, fmt.Sprintf("b%d: boot: %v", bi, err))
 		return
 	}
@@ -688,12 +898,26 @@ var traceSeq int
 // traceRun executes one seeded free-running run and returns its events.
 func traceRun(cf *conf, rng *rand.Rand, in *mbt.Input, res *mbt.Result) []any {
 	srBatch := 1 + rng.Intn(3)
+	curW := cf.W // worker count of the running generation
+	if len(cf.counts) > 0 {
+		curW = cf.counts[rng.Intn(len(cf.counts))]
+	}
+	turn := rng.Intn(1 << 16) // selects the DKV tuning of every generation in turn
+	dkv0 := cluster.DkvCounters()
+	defer func() { countDkv(res, dkv0) }()
 	opt := cluster.Options{
-		Workers: cf.W, KeyGroups: cf.KeyGroups, Splits: cf.splits,
+		Workers: curW, KeyGroups: cf.KeyGroups, Splits: cf.splits,
 		OpBatch: 1 + rng.Intn(3), OpDelay: time.Duration(200+rng.Intn(800)) * time.Microsecond,
 		SrBatch: srBatch, SrDelay: time.Duration(200+rng.Intn(800)) * time.Microsecond,
 		AutoRead: false, ReadBatch: 1 + rng.Intn(2), ReadDelay: time.Duration(rng.Intn(500)) * time.Microsecond, Watermarks: "pass", LogCalls: os.Getenv("RECOVERY_DUMP_DIR") != "",
 		Gates: []string{cluster.PJobOpAck, cluster.PJobSrAck},
+	}
+	if cf.overlap {
+		opt.Gates = append(opt.Gates, cluster.PStoreWrite) // snapshot writes are held and land in seeded order
+	}
+	if len(cf.mem) > 0 {
+		// a slower source: checkpoints, kills and restarts fall between the records (and their flushes) instead of before / after all of them
+		opt.ReadDelay = time.Duration(300+rng.Intn(1500)) * time.Microsecond
 	}
 	c, err := cluster.New(opt)
 	if err != nil {
@@ -796,7 +1020,7 @@ func traceRun(cf *conf, rng *rand.Rand, in *mbt.Input, res *mbt.Result) []any {
 		})
 		misplaced := 0
 		for k, where := range cs.Where {
-			if len(where) != 1 || cluster.OpIndexOfID(cs.Ops[where[0]].Op) != cluster.OwnerOf(cf.KeyGroups, cf.W, k) {
+			if len(where) != 1 || cluster.OpIndexOfID(cs.Ops[where[0]].Op) != cluster.OwnerOf(cf.KeyGroups, len(cs.Ops), k) {
 				misplaced++
 			}
 		}
@@ -814,12 +1038,106 @@ func traceRun(cf *conf, rng *rand.Rand, in *mbt.Input, res *mbt.Result) []any {
 		return events // what was recorded so far is still validated
 	}
 
-	restored, err := c.Boot()
+	// boot (restart) the next generation with w workers under the DKV tuning whose turn it is
+	boot := func(w int, restart bool) (uint64, error) {
+		if err := c.SetWorkers(w); err != nil {
+			return 0, err
+		}
+		if cf.tuneFor(turn) != 0 {
+			res.Count("tunedGenerations", 1)
+		}
+		turn++
+		mark := len(c.Log(0))
+		var restored uint64
+		var err error
+		if restart {
+			restored, err = c.Restart()
+		} else {
+			restored, err = c.Boot()
+		}
+		cf.untune()
+		if err == nil {
+			if w != curW {
+				res.Count("rescales", 1)
+				res.Count(fmt.Sprintf("rescale%dto%d", curW, w), 1)
+			}
+			curW = w
+			countShapes(c, mark, res)
+		}
+		return restored, err
+	}
+	nextW := func() int {
+		if len(cf.counts) == 0 {
+			return curW
+		}
+		return cf.counts[rng.Intn(len(cf.counts))]
+	}
+	restored, err := boot(curW, false)
 	if err != nil {
 		return fail("trace boot: %v", err)
 	}
 	_ = restored
+	if len(cf.counts) > 0 {
+		events = append(events, map[string]any{"op": "Start", "w": curW})
+	}
 	c.SetAutoRead(true)
+	// overlap mode: snapshot writes parked at the store gate, landed by the driver in seeded order
+	var writes []*gate.Arrival
+	jobDead := false
+	npub := 0 // publications of this run that landed (overlap mode)
+	pollWrites := func() (arrived bool) {
+		if !cf.overlap {
+			return false
+		}
+		for {
+			a, err := c.Sched().Await(gate.Point(cluster.PStoreWrite), 0)
+			if err != nil {
+				return arrived
+			}
+			writes = append(writes, a)
+			arrived = true
+		}
+	}
+	readBack := func(p cluster.Obs) {
+		if ck, err := cluster.ReadJobCheckpointFile(p.Text); err == nil {
+			cs, err := c.ReadCheckpointState(ck)
+			if err != nil {
+				events = append(events, map[string]any{"op": "Unrestorable", "n": int(ck.Id), "err": err.Error()})
+			} else {
+				events = append(events, snapEvent("Published", ck.Id, cs))
+			}
+		}
+	}
+	landWrite := func(i int) {
+		a := writes[i]
+		writes = append(writes[:i:i], writes[i+1:]...)
+		if jobDead {
+			call(a).Fail = errors.New("the job was killed before the write")
+			a.Release()
+			return
+		}
+		mark := len(c.Log(0))
+		a.Release()
+		select {
+		case <-call(a).Done():
+		case <-time.After(wait):
+		}
+		if call(a).Err != nil {
+			return
+		}
+		c.WaitRetention(wait)
+		flush()
+		for _, o := range c.Log(mark) {
+			if o.Kind == "published" && o.Ckpt == call(a).Ckpt {
+				if o.Superseded {
+					res.Count("supersededWrites", 1) // landed after a newer one: the job removes the file again
+				} else {
+					npub++
+					readBack(o) // right away: the next write that lands makes this one obsolete
+				}
+			}
+		}
+	}
 	// acks are held at their gates and released in seeded random order by the driver
 	var held []*gate.Arrival
 	releaseAcks := func(s *gate.Sched, max int) {
@@ -853,13 +1171,20 @@ func traceRun(cf *conf, rng *rand.Rand, in *mbt.Input, res *mbt.Result) []any {
 	anyDead := false
 	for time.Now().Before(deadline) {
 		flush()
+		if pollWrites() {
+			ckptOpen = false // every ack is in: the store accepts the next checkpoint while this one is being written
+		}
+		if len(writes) > 0 && rng.Intn(10) == 0 {
+			landWrite(rng.Intn(len(writes)))
+			continue
+		}
 		// progress of the current generation
 		cur := c.ReaderCursors()
 		read := 0
 		for s := 0; s < cf.NSplits; s++ {
 			read += cur[s]
 		}
-		if ckptOpen {
+		if ckptOpen && !cf.overlap {
 			if _, ok := c.WaitObs(openFrom, 0, func(o cluster.Obs) bool { return o.Kind == "published" && o.Gen == c.Gen() }); ok {
 				c.WaitRetention(wait) // before the next tick (DESIGN 7 #28)
 				ckptOpen = false
@@ -878,34 +1203,56 @@ func traceRun(cf *conf, rng *rand.Rand, in *mbt.Input, res *mbt.Result) []any {
 			}
 		}
 		switch x := rng.Intn(100); {
-		case x < 30 && !ckptOpen && !anyDead && ckpts > 0:
+		case x < 30 && !ckptOpen && !anyDead && ckpts > 0 && (len(cf.mem) == 0 || read >= 2):
+			// (tuned dkv: no checkpoint of the still empty job; and, seeded coin, let the background tasks of the
+			// writes so far finish first, so that the DKV checkpoints consist of tables as often as of sealed memtables)
+			if len(cf.mem) > 0 && rng.Intn(2) == 0 && cluster.DkvQuiet(20*time.Millisecond) {
+				res.Count("settled", 1)
+			}
 			ckpts--
 			ckptOpen = true
+			if len(writes) > 0 {
+				res.Count("ticksWhilePublishing", 1)
+			}
 			openFrom = len(c.Log(0))
 			go c.TickCheckpoint()
 		case x < 60:
 			releaseAcks(c.Sched(), 1+rng.Intn(4))
-		case x < 64 && kills > 0 && !anyDead && read > 0:
+		case x < 64 && kills > 0 && !anyDead && read > 0 && (len(cf.mem) == 0 || npub > 0 || rng.Intn(3) == 0):
+			// (tuned dkv: two kills out of three wait for a publication, so that restarts restore from something)
 			kills--
 			var nodes []string
 			for len(nodes) == 0 {
 				if rng.Intn(4) == 0 {
 					nodes = append(nodes, "job")
 				}
-				for w := 0; w < cf.W; w++ {
+				for w := 0; w < curW; w++ {
 					if rng.Intn(2) == 0 {
 						nodes = append(nodes, fmt.Sprintf("w%d", w))
 					}
 				}
 			}
+			if len(writes) > 0 || ckptOpen {
+				res.Count("killsWhileCheckpointing", 1)
+			}
 			c.Kill(nodes...)
 			anyDead = true
+			if nodes[0] == "job" {
+				jobDead = true
+				for len(writes) > 0 {
+					landWrite(0) // a dead job writes nothing
+				}
+			}
 		case x < 80 && anyDead:
 			// survivors may go on for a while; then restart
 			releaseAcks(c.Sched(), 4)
 			time.Sleep(time.Duration(rng.Intn(1500)) * time.Microsecond)
 			flush()
-			if ckptOpen { // a checkpoint may have been completed by the survivors: record it before the restart
+			pollWrites()
+			for len(writes) > 0 && rng.Intn(2) == 0 { // a living job may still write what the survivors completed
+				landWrite(rng.Intn(len(writes)))
+			}
+			if ckptOpen && !cf.overlap { // a checkpoint may have been completed by the survivors: record it before the restart
 				if _, ok := c.WaitObs(openFrom, 0, func(o cluster.Obs) bool { return o.Kind == "published" && o.Gen == c.Gen() }); ok {
 					pubs := c.Published()
 					p := pubs[len(pubs)-1]
@@ -919,9 +1266,13 @@ func traceRun(cf *conf, rng *rand.Rand, in *mbt.Input, res *mbt.Result) []any {
 				}
 			}
 			mark := len(c.Log(0))
-			restored, err := c.Restart()
+			restored, err := boot(nextW(), true)
 			flush()
 			if err != nil {
+				if why := restoreFailure(c, mark); why != "" {
+					events = append(events, map[string]any{"op": "Unrestorable", "n": int(restored), "err": why})
+					return events
+				}
 				if errors.Is(err, cluster.ErrBootTimeout) {
 					return fail("trace: %v", err)
 				}
@@ -939,10 +1290,10 @@ func traceRun(cf *conf, rng *rand.Rand, in *mbt.Input, res *mbt.Result) []any {
 			if lost == nil {
 				lost = []int{}
 			}
-			events = append(events, map[string]any{"op": "Restart", "n": int(restored), "lost": lost})
+			events = append(events, restartEvent(cf, restored, lost, curW))
 			c.SetAutoRead(true)
-			held = nil
-			anyDead, ckptOpen = false, false
+			held, writes = nil, nil
+			anyDead, ckptOpen, jobDead = false, false, false
 		default:
 			time.Sleep(time.Duration(rng.Intn(400)) * time.Microsecond)
 		}
@@ -955,11 +1306,19 @@ func traceRun(cf *conf, rng *rand.Rand, in *mbt.Input, res *mbt.Result) []any {
 	}
 	// completion: restart if needed, drain, final checkpoint
 	flush()
+	pollWrites()
+	for len(writes) > 0 && !anyDead {
+		landWrite(rng.Intn(len(writes)))
+	}
 	if anyDead {
 		mark := len(c.Log(0))
-		restored, err := c.Restart()
+		restored, err := boot(nextW(), true)
 		flush()
 		if err != nil {
+			if why := restoreFailure(c, mark); why != "" {
+				events = append(events, map[string]any{"op": "Unrestorable", "n": int(restored), "err": why})
+				return events
+			}
 			if errors.Is(err, cluster.ErrBootTimeout) {
 				return fail("trace: %v", err)
 			}
@@ -976,7 +1335,7 @@ func traceRun(cf *conf, rng *rand.Rand, in *mbt.Input, res *mbt.Result) []any {
 		if lost == nil {
 			lost = []int{}
 		}
-		events = append(events, map[string]any{"op": "Restart", "n": int(restored), "lost": lost})
+		events = append(events, restartEvent(cf, restored, lost, curW))
 		c.SetAutoRead(true)
 	}
 	c.Sched().FreeRun()
@@ -1039,6 +1398,15 @@ func traceRun(cf *conf, rng *rand.Rand, in *mbt.Input, res *mbt.Result) []any {
 	return fail("trace: no final checkpoint")
 }
 
+// restartEvent: the new generation's worker count is part of the event when the job may be rescaled.
+func restartEvent(cf *conf, restored uint64, lost []int, w int) map[string]any {
+	ev := map[string]any{"op": "Restart", "n": int(restored), "lost": lost}
+	if len(cf.counts) > 0 {
+		ev["w"] = w
+	}
+	return ev
+}
+
 func main() {
 	in, err := mbt.ReadInput(os.Args[1])
 	if err != nil {
@@ -1079,7 +1447,7 @@ func main() {
 				res.Count("skipped", 1)
 				continue
 			}
-			replay(bi, beh, cf, res)
+			replay(bi, beh, cf, res, in.Seed)
 		}
 	}
 	if err := mbt.WriteResult(os.Args[2], res); err != nil {
